@@ -46,6 +46,20 @@ theorem disk_writers :
     Facts.directFileWriteCallers = [] ∧ Facts.writeAtCallers = ["putHeader", "putPointAt"] ∧
     Facts.truncateCallers = ["Create"] := by decide
 
+/-- C08, C11, C20 (and every reading command): who reads a clock, and how many times.  Each
+    command reads the wall clock once per file or item (the two extra readings in the `execute`
+    of the looping commands time the run for its log line) and hands the instant on; the
+    library reads its own clock only in the three entry points that may be called without an
+    instant, and never the wall clock directly. -/
+theorem clock_readers :
+    Facts.cmdClockReaders = ["CopyCommand.copyOneFile:1", "CopyCommand.execute:2", "DiffCommand.diffOneFile:1",
+      "DiffCommand.execute:2", "GenerateCommand.execute:1", "SumCommand.execute:1", "SumCopyCommand.execute:2",
+      "SumCopyCommand.sumCopyItem:1", "SumDiffCommand.execute:2", "SumDiffCommand.sumDiffItem:1",
+      "ViewCommand.execute:1", "ViewRawCommand.execute:1", "newRandSeed:1"] ∧
+    Facts.libClockReaders = ["Whisper.FetchFromArchive:1", "Whisper.UpdatePointForArchive:1",
+      "Whisper.UpdatePointsForArchive:1"] ∧
+    Facts.libWallClockReaders = [] := by decide
+
 /-- C13: the lock is taken in one place. -/
 theorem lock_site : Facts.flockCallers = ["openAndLockFile"] := by decide
 
